@@ -51,9 +51,73 @@ type result struct {
 	effect string
 }
 
+type site struct {
+	call   string
+	guards []guard
+}
+
 type analyzer struct {
 	methods map[string]*ast.FuncDecl
 	depth   int
+	// creation analysis: reach[m] = handler method m can (transitively) reach topic creation
+	// (h.ensureTopic / h.store.CreateTopic); collect != nil switches the walk to "record every
+	// creation-reaching call site with the guards accumulated at that point, and keep walking"
+	reach   map[string]bool
+	collect *[]site
+}
+
+// creationCall names a call that can reach topic creation ("" otherwise). A callee with a bool
+// parameter called autoCreate gets the argument expression in brackets: h.partitionLog[mayCreate].
+func (a *analyzer) creationCall(c *ast.CallExpr) string {
+	p := selPath(c.Fun)
+	if p == "h.store.CreateTopic" {
+		return p
+	}
+	if !strings.HasPrefix(p, "h.") || strings.Count(p, ".") != 1 {
+		return ""
+	}
+	name := strings.TrimPrefix(p, "h.")
+	if !a.reach[name] || strings.HasPrefix(name, "handle") || strings.HasPrefix(name, "unauthorized") {
+		return ""
+	}
+	if fd := a.methods[name]; fd != nil {
+		idx := 0
+		for _, f := range fd.Type.Params.List {
+			for _, nm := range f.Names {
+				if nm.Name == "autoCreate" && idx < len(c.Args) {
+					return p + "[" + selPath(c.Args[idx]) + "]"
+				}
+				idx++
+			}
+			if len(f.Names) == 0 {
+				idx++
+			}
+		}
+	}
+	return p
+}
+
+func (a *analyzer) computeReach() {
+	a.reach = map[string]bool{}
+	for changed := true; changed; {
+		changed = false
+		for name, fd := range a.methods {
+			if a.reach[name] {
+				continue
+			}
+			ast.Inspect(fd.Body, func(n ast.Node) bool {
+				if c, ok := n.(*ast.CallExpr); ok {
+					p := selPath(c.Fun)
+					if p == "h.store.CreateTopic" || (strings.HasPrefix(p, "h.") && strings.Count(p, ".") == 1 && a.reach[strings.TrimPrefix(p, "h.")]) {
+						a.reach[name] = true
+						changed = true
+						return false
+					}
+				}
+				return true
+			})
+		}
+	}
 }
 
 var storeEffects = map[string]bool{"CreateTopic": true, "DeleteTopic": true, "UpdateTopicConfig": true, "CreatePartitions": true,
@@ -194,8 +258,17 @@ func (a *analyzer) scanCalls(n ast.Node, ctx *walkCtx) *result {
 		case *ast.FuncLit:
 			return false // only analysed when invoked (below)
 		case *ast.CallExpr:
+			if a.collect != nil {
+				if cc := a.creationCall(c); cc != "" {
+					if ctx.inDeny {
+						cc = "UNGUARDED:" + cc
+					}
+					*a.collect = append(*a.collect, site{cc, append([]guard(nil), ctx.guards...)})
+					return true
+				}
+			}
 			// arguments first (source order of evaluation for nested calls is close enough here)
-			if e := effectName(c); e != "" {
+			if e := effectName(c); e != "" && a.collect == nil {
 				if ctx.inDeny {
 					e = "UNGUARDED:" + e
 				}
@@ -418,8 +491,16 @@ func (a *analyzer) walkStmt(st ast.Stmt, ctx *walkCtx) *result {
 	case *ast.DeferStmt, *ast.BranchStmt, *ast.EmptyStmt:
 		return nil
 	case *ast.AssignStmt:
-		// allowedReq.Groups = allowed : the filtered slice is what reaches the effect
+		// v := ... h.allowTopic(...) ... : a stored verdict is recorded as "v=<guard>"/flag
+		before := len(ctx.guards)
 		r := a.scanCalls(s, ctx)
+		if len(s.Lhs) == 1 {
+			for i := before; i < len(ctx.guards); i++ {
+				if ctx.guards[i].mode == "flag" {
+					ctx.guards[i].name = selPath(s.Lhs[0]) + "=" + ctx.guards[i].name
+				}
+			}
+		}
 		if r != nil {
 			return a.checkFlow(r, s, ctx)
 		}
@@ -477,6 +558,7 @@ func main() {
 			a.methods[fd.Name.Name] = fd
 		}
 	}
+	a.computeReach()
 	handle := a.methods["Handle"]
 	if handle == nil {
 		fmt.Fprintln(os.Stderr, "handler.Handle not found")
@@ -497,8 +579,9 @@ func main() {
 	// pre-pass: mark the `y.F = X` flow of filtered slices (done lazily inside walk through a
 	// wrapper around AssignStmt below)
 	type row struct {
-		kind string
-		res  result
+		kind  string
+		res   result
+		sites []site
 	}
 	var rows []row
 	for _, cl := range ts.Body.List {
@@ -513,7 +596,13 @@ func main() {
 		if r == nil {
 			r = &result{guards: ctx.guards, effect: "none"}
 		}
-		rows = append(rows, row{kind, *r})
+		// second walk of the same case: every creation-reaching call site, not only the first effect
+		var sites []site
+		a.collect = &sites
+		cctx := &walkCtx{filtered: map[string]bool{}}
+		(&flowWalker{a: a}).walk(cc.Body, cctx)
+		a.collect = nil
+		rows = append(rows, row{kind, *r, sites})
 	}
 	sort.SliceStable(rows, func(i, j int) bool { return rows[i].kind < rows[j].kind })
 
@@ -535,6 +624,30 @@ func main() {
 			sep = ""
 		}
 		fmt.Fprintf(&out, "  (* %s: [%s] -> %s *)\n  (%s, [%s], %s)%s\n", r.kind, strings.Join(human, "; "), r.res.effect, coqStr(r.kind), strings.Join(gs, "; "), coqStr(r.res.effect), sep)
+	}
+	out.WriteString("  ].\n\n")
+	out.WriteString("(* Every call site, anywhere in a dispatch case's handler code, that can reach topic creation\n")
+	out.WriteString("   (h.store.CreateTopic, or a handler method that transitively reaches it: ensureTopic,\n")
+	out.WriteString("   getPartitionLog, partitionLog[<autoCreate argument>], ...), with the guards accumulated at\n")
+	out.WriteString("   that point: (kind, [(call, guards); ...]). *)\n")
+	out.WriteString("Definition creation_sites : list (bytes * list (bytes * list (bytes * bytes))) :=\n  [\n")
+	for i, r := range rows {
+		var ss, human []string
+		for _, st := range r.sites {
+			gs := make([]string, len(st.guards))
+			var hg []string
+			for k, g := range st.guards {
+				gs[k] = fmt.Sprintf("(%s, %s)", coqStr(g.name), coqStr(g.mode))
+				hg = append(hg, g.name+"/"+g.mode)
+			}
+			ss = append(ss, fmt.Sprintf("(%s, [%s])", coqStr(st.call), strings.Join(gs, "; ")))
+			human = append(human, st.call+" under ["+strings.Join(hg, "; ")+"]")
+		}
+		sep := ";"
+		if i == len(rows)-1 {
+			sep = ""
+		}
+		fmt.Fprintf(&out, "  (* %s: %s *)\n  (%s, [%s])%s\n", r.kind, strings.Join(human, " | "), coqStr(r.kind), strings.Join(ss, "; "), sep)
 	}
 	out.WriteString("  ].\n")
 	dst := os.Getenv("VERIF_GEN_OUT")
